@@ -38,9 +38,9 @@ def small_graphs():
 
 def relabel(rng, n, kind):
     if kind == "int":
-        labs = rng.sample(range(0, 50), n)
+        labs = rng.sample(range(-6, 40), n) if rng.random() < 0.5 else rng.sample(range(-3, 4), n)
     elif kind == "tuple":
-        labs = rng.sample([(i, j) for i in range(4) for j in range(4)], n)
+        labs = rng.sample([(i, j) for i in range(-2, 3) for j in range(-2, 3)], n)
     else:
         labs = rng.sample(["s%02d" % k for k in range(40)], n)
     return labs
